@@ -1,0 +1,8 @@
+//go:build verif
+
+package bits
+
+// Agent c02d: frame of WriteBits (needed by callers with an assigns clause, e.g. av1.(*CodecConfRec).EncodeSW for C02).
+// Merged with the existing contract of WriteBits in verif_contracts.go.
+//@ func (*FixedSliceWriter).WriteBits
+//@   assigns sw.off, sw.accError, sw.n, sw.v, sw.buf[:]
